@@ -394,6 +394,70 @@ def lean_optdag(ctx, items):
         ctx.extra["optdag_structurally_equal"] = ctx.extra.get("optdag_structurally_equal", 0) + 1
 
 
+def directed_exceptions(ctx):
+    """T-str, error paths of the traversal: graphs on which the REAL optimiser raises (a pattern indexing a missing argument, reading
+    the shape of a tensor without one, composing an out-of-range permutation; `_optimize` on a leaf it does not know).  The model must
+    answer `Err.py` with the same exception class."""
+    import types
+    import einx._src.tracer as tracer
+    if not ctx.driver_ok:
+        return
+    P = tracer.signature.python
+    T = tracer.signature.classical.Tensor
+    CT = tracer.signature.classical.ConvertibleTensor
+    npm = P.import_("numpy", as_="np")
+    pats = numpy_patterns()
+    pj = dagcap.patterns_json(pats)
+
+    def g_reshape_one_arg():     # (a second graph input: otherwise InlineGraph collapses the graph into `np.reshape` first)
+        x = T(None, (2, 3))
+        return tracer.Graph([x, T(None, ())], tracer.cast(P.call(npm.reshape, [x]), partial(T, shape=(6,))), name="op")
+
+    def g_transpose_no_shape():
+        x = CT(None, concrete=types.SimpleNamespace(type=float), shape=None)
+        return tracer.Graph([x], tracer.cast(P.call(npm.transpose, [x, (1, 0)]), partial(T, shape=(3, 2))), name="op")
+
+    def g_transpose_out_of_range():
+        x = T(None, (2, 3))
+        y = tracer.cast(P.call(npm.transpose, [x, (1, 0)]), partial(T, shape=(3, 2)))
+        return tracer.Graph([x], tracer.cast(P.call(npm.transpose, [y, (0, 2)]), partial(T, shape=(3, 2))), name="op")
+
+    def g_unknown_leaf():
+        x = T(None, (2, 3))
+        return tracer.Graph([x], tracer.cast(P.call(npm.sum, [x], {"dtype": object()}), partial(T, shape=())), name="op")
+
+    def g_broadcast_one_arg():
+        x = T(None, (2, 3))
+        return tracer.Graph([x, T(None, ())], tracer.cast(P.call(npm.broadcast_to, [x]), partial(T, shape=(2, 3))), name="op")
+
+    def g_concatenate_no_args():
+        x = T(None, (2, 3))
+        return tracer.Graph([x], tracer.cast(P.call(npm.concatenate, [], {"axis": 0}), partial(T, shape=(2, 3))), name="op")
+
+    for build in (g_reshape_one_arg, g_transpose_no_shape, g_transpose_out_of_range, g_unknown_leaf, g_broadcast_one_arg, g_concatenate_no_args):
+        g = build()
+        gj, _ = graphcap.graph_to_json(g)
+        try:
+            tracer.optimize(g, pats)
+            real = None
+        except Exception as e:
+            real = type(e).__name__
+        try:
+            pre = dagcap.to_dag(gj)
+        except dagcap.Unsupported as e:
+            ctx.count("optdag-exc:not-serialisable:" + str(e)[:40])
+            continue
+        r = ctx.driver().ask({"kind": "optdag", "prog": pre, "patterns": pj, "max_passes": len(pre["nodes"]) + 3})
+        model = r.get("exc") if r.get("error_kind") == "py" else ("unsupported" if r.get("error_kind") == "unsupported" else None if "prog" in r else r.get("error_kind"))
+        ctx.count("optdag-exc:cases")
+        if model == "unsupported":
+            ctx.count("optdag-exc:unsupported:" + r.get("why", "")[:40])
+        elif model != real:
+            ctx.tie_broken("correspondence:optdag", f"{build.__name__}: the real optimiser {'raises ' + real if real else 'returns a graph'}, the model {'raises ' + str(model) if model else 'returns a graph'}")
+        else:
+            ctx.count("optdag-exc:same:" + str(real))
+
+
 # ------------------------------------------------------------------------------------------------ shrinking
 
 def run_chain(spec, patterns):
@@ -793,6 +857,7 @@ def run(ctx):
         n_calls, n_chains = n_calls * 3, n_chains * 4
     if ctx.driver_ok:
         kernel_correspondence(ctx, n_kernel)
+        directed_exceptions(ctx)
     # targeted chains first: the shapes of change the property names (composition order, multi-consumer operand)
     targeted = []
     for shape in ([2, 2, 2], [2, 3, 4], [2, 2, 3, 3]):
